@@ -8,4 +8,3 @@ pub mod stubs;
 #[cfg(kani)]
 mod c07;
 #[cfg(kani)]
-mod c04;
